@@ -124,10 +124,22 @@ class DataCase(object):
             o = 0 if rng.random() < 0.7 else int(rng.integers(self.n_out))
             self.meas[k][o] = (np.array([]), np.array([]))
             self.lacks_output = (k, o)
+        # an individual may have no measurement at all (enrolled, dosed,
+        # covariates recorded, every sample lost): it stays an individual
+        # of the population
+        self.lacks_all = None
+        if self.n_ids >= 2 and rng.random() < 0.15:
+            others = [k for k in self.keys if not (
+                self.lacks_output and k == self.lacks_output[0])]
+            k = others[int(rng.integers(len(others)))]
+            for o in range(self.n_out):
+                self.meas[k][o] = (np.array([]), np.array([]))
+            self.lacks_all = k
         # doses
         self.doses = {k: [] for k in self.keys}
         self.with_duration_col = bool(rng.integers(2))
-        self.has_doses = self.sbml or rng.random() < 0.3
+        # (a dosed model may come with a dataset without any dose rows)
+        self.has_doses = rng.random() < (0.8 if self.sbml else 0.3)
         if self.has_doses:
             for k in self.keys:
                 last = -1.0
@@ -223,6 +235,12 @@ class DataCase(object):
                             # (one dose: a replicate row at the same time
                             # carries the measurement only)
                             break
+            if k == getattr(self, 'lacks_all', None):
+                # (the individual is in the dataset: a sample whose value
+                # was lost)
+                blocks.append([{kn['id']: lab(i), kn['time']: 1.1,
+                                kn['obs']: self.obs_names[0],
+                                kn['value']: np.nan}])
             if decoys:
                 blocks.append([{kn['id']: lab(i), kn['time']: float(tt),
                                 kn['obs']: 'decoy observable',
@@ -410,7 +428,8 @@ def posterior_case(ctx, rng, idx):
              'mapping_reversed': case.map_explicit and case.map_reversed,
              'mapping_extra_key': case.map_explicit and case.map_extra_key,
              'renamed_keys': case.key_names['id'] != 'ID',
-             'individual_lacks_an_observable': case.lacks_output is not None}
+             'individual_lacks_an_observable': case.lacks_output is not None,
+             'individual_without_measurements': case.lacks_all is not None}
     names_ind = case.indiv_names()
     n_ind = len(names_ind)
     # population model (decided before the frame because of covariate rows)
@@ -461,6 +480,26 @@ def posterior_case(ctx, rng, idx):
         feats['population_model_set_first'] = pm_set_first
         if leaves is not None and pm_set_first:
             c.set_population_model(pm)
+        if case.sbml and rng.random() < 0.4:
+            # the controller has seen another dataset before (the same
+            # measurements with a dose for everybody): the posterior is
+            # that of the dataset set last
+            kn_ = case.key_names
+            prev = df.copy()
+            extra = pd.DataFrame([
+                {kn_['id']: v_, kn_['time']: 0.123, kn_['dose']: 7.5}
+                for v_ in pd.unique(df[kn_['id']])])
+            prev = pd.concat([prev, extra], ignore_index=True)
+            kw_prev = dict(kw)
+            kw_prev['dose_key'] = kn_['dose']
+            kw_prev['dose_duration_key'] = kn_['duration'] if (
+                kn_['duration'] in prev.columns) else None
+            feats['earlier_dataset'] = True
+            try:
+                c.set_data(prev, **kw_prev)
+                ctx.count('earlier_datasets')
+            except Exception:       # noqa
+                feats['earlier_dataset'] = 'refused'
         c.set_data(df, **kw)
         if leaves is not None and not pm_set_first:
             c.set_population_model(pm)
@@ -635,7 +674,8 @@ def _history(ctx, rng, case, c, df, kw, value, x, feats, pm,
             idk = case.key_names['id']
             # (an individual with measurements of every mapped observable)
             firsts = [v for v in pd.unique(df[idk]) if not (
-                case.lacks_output and str(v) == case.lacks_output[0])]
+                case.lacks_output and str(v) == case.lacks_output[0])
+                and str(v) != case.lacks_all]
             first = firsts[0]
             sub = df[df[idk] == first]
             c2, kw2 = _setup_controller(case, sub, ctx, feats)
